@@ -24,7 +24,7 @@ TRUSTED = ["the writer/reader schemas reach the model as the parsed dicts and th
 ASSUMPTIONS = ["named types are not called like a built-in type name", "logical types other than unknown ones are not generated (C16)",
                "reader schemas that fastavro.parse_schema rejects are not generated",
                "dict insertion order of the result is not compared (DESIGN 1.3)"]
-PARTIAL = ["C08_factor is proved as C08_factor_code (rdec = decode ; rval, all inputs) + C08_factor_zone (rval = resolve inside the agreement zone); see props/C08.v"]
+PARTIAL = ["C08_factor is proved as C08_factor_code (rdec = decode ; rval: all schema pairs, options, layouts) + C08_factor_zone_partial (rval = resolve for schemas without by-name references/annotations inside the computable agreement zone `agree`); the full statement is refuted by 8 concrete witnesses (props/C08.v); missing: the zone theorem for schemas with by-name references and dict-form primitives"]
 
 SRE = "SchemaResolutionError"
 
@@ -448,6 +448,22 @@ def f6_shape(s):
     return False
 
 
+def has_ref(s):
+    if isinstance(s, str):
+        return s not in gen.PRIMS
+    if isinstance(s, list):
+        return any(has_ref(b) for b in s)
+    if isinstance(s, dict):
+        t = s.get("type")
+        if t in ("record", "error"):
+            return any(has_ref(f["type"]) for f in s.get("fields", []))
+        if t == "array":
+            return has_ref(s["items"])
+        if t == "map":
+            return has_ref(s["values"])
+    return False
+
+
 def kind_differs(c):
     """a named type of the same unqualified name (or aliased to it) is of another kind in the reader"""
     def kinds(s, out):
@@ -503,6 +519,8 @@ def classify(c, res, spec):
         if spec == "ER":
             if kind_differs(c):
                 return "C08:match_schemas:named-type-kind-not-compared:returns-value"
+            if has_ref(c.w_raw) and has_ref(c.r_raw):
+                return "C08:match_types:by-name-references-compared-by-name-only:returns-value"
             return "C08:match_types:returns-value-where-no-rule-applies"
         return "C08:read_data:returns-value-where-the-specification-raises"
     d = first_diff(canon_py(res[1]), parse_show(spec[2:]))
@@ -536,9 +554,14 @@ def compare(ctx, c, route, res, mtext, with_rest):
     if mtext is None:
         ctx.violation("corr:resolve", c.to_json(route), impl=str(res)[:500], model=None, signature="C08:model-not-evaluated", found_input=False)
         return
-    rd, spec = mtext.split(";", 1)
+    rd, spec, zone = mtext.split(";")
     ic = impl_class(res)
     default_opts = not c.ropts
+    if zone == "Z1" and default_opts:
+        ctx.notes["cases_inside_agreement_zone"] = ctx.notes.get("cases_inside_agreement_zone", 0) + 1
+        if rd.split("|")[0].replace("R:", "V:", 1) != spec:
+            ctx.violation("corr:resolve", c.to_json(route), impl=None, model=mtext[:600], signature="C08:model:theorem-C08_factor_zone-contradicted",
+                          found_input=False)
     # ---- the tie: implementation vs rdec
     if rd.startswith("R:"):
         mv, mrest = rd[2:].rsplit("|", 1)
@@ -571,7 +594,7 @@ def compare(ctx, c, route, res, mtext, with_rest):
 
 
 def run(ctx):
-    n = 1800 if ctx.quick() else 20000
+    n = 1800 if ctx.quick() else 12000
     cases = gen_cases(ctx, n)
     prepared, exprs, index = [], [], {}
     skipped = 0
@@ -605,7 +628,7 @@ def run(ctx):
         compare(ctx, c, "schemaless", p["A"], mA, True)
         shortcuts += 1 if p["shortcut"] else 0
         if mA:
-            sp = mA.split(";", 1)[1]
+            sp = mA.split(";")[1]
             hist["V" if sp.startswith("V:") else sp if sp in hist else "EO"] += 1
         if p["exprB"] is not None:
             ctx.count("corr:resolve", key + ("B",), nontrivial=nontrivial)
@@ -629,11 +652,11 @@ def replay(ctx, rep):
     out = [G.canon_model_text(x) for x in core.coq_eval(exprs, IMPORTS, ctx.workdir, tag="rp", shard=10)]
     ok = True
     for route, res, m in [("schemaless", p["A"], out[0])] + ([("container", p["B"], out[1])] if p["exprB"] else []):
-        rd, spec = m.split(";", 1)
+        rd, spec, zone = m.split(";")
         ic = impl_class(res)
         print("[%s] implementation: %s" % (route, G.show_py(res[1]) if ic == "V" else "%s %s %s" % (ic, res[1], res[2])))
         print("[%s] model rdec     : %s" % (route, rd[:600]))
-        print("[%s] specification  : %s" % (route, spec[:600]))
+        print("[%s] specification  : %s   (%s the agreement zone)" % (route, spec[:600], "inside" if zone == "Z1" else "outside"))
         if c.ropts:
             continue
         if spec.startswith("V:"):
